@@ -5,3 +5,5 @@ import MtailVerif.Props.C18
 #print axioms MtailVerif.C18.append_delivers_once
 #print axioms MtailVerif.C18.pending_settled_at_poll
 #print axioms MtailVerif.C18.tailer_shape
+#print axioms MtailVerif.C18.dispatch_skeletons
+#print axioms MtailVerif.C18.after_poll_never_dir
